@@ -456,6 +456,10 @@ void WFXMLScanner::scanReset(const InputSource& src)
     //  are still there: the new document must not be stacked on top of them.
     fReaderMgr.reset();
 
+    //  A document is XML 1.0 until its XML declaration says otherwise, also
+    //  when the previous one was XML 1.1
+    fXMLVersion = XMLReader::XMLV1_0;
+
     //  For all installed handlers, send reset events. This gives them
     //  a chance to flush any cached data.
     if (fDocHandler)
